@@ -56,6 +56,13 @@ def replay(payload):
     if kind == "honest-rejected":
         print("honest_verify:", out.get("honest_verify"))
         return 1 if out.get("honest_verify") is False else 0
+    if kind == "honest-output":
+        io = {f"i1_{x['row']}": int(x["value"], 16) for x in out.get("io", [])}
+        same = all(io.get(c) == int(v, 16) for c, v in payload.get("instance", {}).items())
+        print("honest_verify:", out.get("honest_verify"), "same instance as recorded:", same)
+        if payload["cx"][1] == "op=padding":
+            print(shapad.explain_instance(payload["cx"], payload["instance"]))
+        return 1 if (out.get("honest_verify") and same) else 0
     print("real MockProver verdict on the forged assignment:", out)
     inst = payload.get("instance")
     if inst and payload["cx"][1] == "op=padding":
